@@ -2,6 +2,14 @@
 """tools/kf_fix.py <commit> <property> [class [sig]] : marks matching open entries of known_findings.json as fixed
 (maintenance only; a fixed entry mutes nothing)."""
 import json, sys
+
+def atomic_dump(obj, path):
+    import os, json as _j
+    tmp = path + ".tmp%d" % os.getpid()
+    with open(tmp, "w") as fh:
+        _j.dump(obj, fh, indent=1)
+    os.replace(tmp, path)
+
 commit, prop = sys.argv[1], sys.argv[2]
 cls = sys.argv[3] if len(sys.argv) > 3 else None
 sig = sys.argv[4] if len(sys.argv) > 4 else None
@@ -13,5 +21,5 @@ for f in d["findings"]:
         f["status"] = "fixed"; f["commit"] = commit
         f["fixed"] = "fixed: property=%s %s %s" % (prop, commit, f["class"] + "|" + f["sig"])
         n += 1
-json.dump(d, open(p, "w"), indent=1)
+atomic_dump(d, p)
 print("marked", n)
